@@ -1,25 +1,39 @@
 #!/usr/bin/env python3
-"""Re-run the property's quick check against stored seeded changes: seeded_recheck.py [<name>...] (default: all).
-Applies seeded/<name>/patch.diff to /repo, runs ./check, reverts; appends the outcome to meta.json["rechecks"]."""
-import json, os, subprocess, sys, glob
+"""Re-run the property's quick check against stored seeded changes: seeded_recheck.py [-j N] [<name>...] (default: all).
+Each change is applied in a scratch worktree of /repo's HEAD and the check runs with VERIF_REPO pointing at it
+(/repo itself is not touched, so N of them run side by side); the outcome is appended to meta.json["rechecks"]."""
+import json, os, subprocess, sys, glob, concurrent.futures
 V = "/verif"
-names = sys.argv[1:] or sorted(os.path.basename(d) for d in glob.glob(V + "/seeded/*") if os.path.isdir(d))
+args = sys.argv[1:]
+jobs = 4
+if args[:1] == ["-j"]:
+    jobs, args = int(args[1]), args[2:]
+names = args or sorted(os.path.basename(d) for d in glob.glob(V + "/seeded/*") if os.path.isdir(d))
 def sh(c): return subprocess.run(c, shell=True, capture_output=True, text=True)
 head = sh(f"git -C {V} rev-parse --short HEAD").stdout.strip()
-for n in names:
+def one(n):
     mp = f"{V}/seeded/{n}/meta.json"
     meta = json.load(open(mp))
-    assert sh("git -C /repo status --porcelain").stdout.strip() == "", "/repo dirty"
-    assert sh(f"git -C /repo apply {V}/seeded/{n}/patch.diff").returncode == 0
+    wt = f"/tmp/recheck-{n}"
+    sh(f"git -C /repo worktree remove --force {wt}")
+    assert sh(f"git -C /repo worktree add --detach {wt} HEAD").returncode == 0
     try:
+        ap = sh(f"git -C {wt} apply {V}/seeded/{n}/patch.diff")
+        if ap.returncode != 0:
+            return n, None, "patch does not apply: " + ap.stderr.strip()[:200], meta, mp
         prop = meta.get("check_property", meta["property"])
-        c = sh(f"cd {V} && VERIF_BUDGET_S=900 ./check {prop} quick")
+        c = sh(f"cd {V} && VERIF_REPO={wt} VERIF_BUDGET_S=900 ./check {prop} quick")
         viol = [l for l in c.stdout.splitlines() if l.startswith("VIOLATION")]
         first = next((l.strip() for l in c.stdout.splitlines() if l.startswith("  kind=")), "")[:300]
-        caught = c.returncode == 1 and bool(viol)
+        return n, (c.returncode == 1 and bool(viol)), first, meta, mp
     finally:
-        sh("git -C /repo checkout -- .")
-    meta.setdefault("rechecks", []).append({"verif_commit_before": head, "check": f"./check {prop} quick", "caught": caught, "first_detail": first})
-    meta["caught_by_own_property_check_now"] = caught
-    json.dump(meta, open(mp, "w"), indent=1)
-    print(n, "caught" if caught else "MISSED", first[:160])
+        sh(f"git -C /repo worktree remove --force {wt}")
+        tag = sh(f'echo "{wt}" | md5sum | cut -c1-8').stdout.strip()
+        sh(f"rm -rf {V}/alt/run-{tag} ~/.cache/verif-overlay-{tag} ~/.cache/verif-vmap-{tag}")
+with concurrent.futures.ThreadPoolExecutor(jobs) as ex:
+    for n, caught, first, meta, mp in ex.map(one, names):
+        prop = meta.get("check_property", meta["property"])
+        meta.setdefault("rechecks", []).append({"verif_commit_before": head, "check": f"VERIF_REPO=<worktree with the patch> ./check {prop} quick", "caught": caught, "first_detail": first})
+        meta["caught_by_own_property_check_now"] = caught
+        json.dump(meta, open(mp, "w"), indent=1)
+        print(n, "caught" if caught else ("N/A" if caught is None else "MISSED"), first[:160], flush=True)
